@@ -83,6 +83,9 @@ def rand_set(ns, rnd, with_sd):
               sc=rnd.uniform(-100, 100), rx=rot(), ry=rot(), rz=rot())
     if abs(kw['rx']) >= 60 or abs(kw['ry']) >= 60 or abs(kw['rz']) >= 60:
         return rand_set(ns, rnd, with_sd)
+    if rnd.random() < 0.15:
+        # parameters typed as whole numbers (Python int), as a user or a table might give them
+        kw = {k: (int(v) if rnd.random() < 0.6 else v) for k, v in kw.items()}
     sd = None
     if with_sd:
         sd = C.TransformationSD(sd_tx=rnd.uniform(0, 0.01), sd_ty=rnd.uniform(0, 0.01), sd_tz=rnd.uniform(0, 0.01),
